@@ -52,12 +52,12 @@ class C02(CtxCheck):
         return out
 
     # ---- component family: contexts created from inside prepare()/start() of a starting component -----------
-    def units(self, tier: str, seed: int) -> list:
+    def _units0(self, tier: str, seed: int) -> list:
         comp = [{"comp": {"where": w, "nest": n, "order": o}} for w in ("root.prepare", "a.prepare", "a.start", "root.start", "g.start")
                 for n in (False, True) for o in ("ag", "ga")]
         return super().units(tier, seed) + comp
 
-    def work(self, unit: dict, tier: str) -> dict:
+    def _work0(self, unit: dict, tier: str) -> dict:
         if "comp" not in unit:
             return super().work(unit, tier)
         from ..explore import Chooser, new_summary, reset_determinism, run_main_asyncio
@@ -75,7 +75,7 @@ class C02(CtxCheck):
             s["keyhist"] = {"visible": 1}
         return s
 
-    def replay(self, rec: dict) -> Any:
+    def _replay0(self, rec: dict) -> Any:
         if "comp" in rec.get("program", {}):
             s = self.work(rec["program"], "quick")
             for v in s["violations"]:
@@ -194,6 +194,29 @@ class C02(CtxCheck):
     def addfs(self, idx: int) -> list[tuple]:
         return [("op", idx, ("addf", "Ad", "sync", f"f:c{idx}:Ad", "m")),
                 ("op", idx, ("addf", "BAd", "async", f"f:c{idx}:BAd", "m"))]
+
+    def units(self, tier: str, seed: int) -> list:
+        from .c04race import adder_units
+
+        return self._units0(tier, seed) + adder_units(tier)
+
+    def work(self, unit: dict, tier: str) -> dict:
+        if "race" in unit:
+            from .c04race import RACE
+
+            s = RACE.work(unit, tier)
+            # only the clause that belongs to this property
+            s["violations"] = [v for v in s["violations"] if "visible" in v["keys"]]
+            s["keyhist"] = {k: n for k, n in s.get("keyhist", {}).items() if k == "visible"}
+            return s
+        return self._work0(unit, tier)
+
+    def replay(self, rec: dict):  # type: ignore[no-untyped-def]
+        if "race" in rec.get("program", {}):
+            from .c04race import RACE
+
+            return RACE.replay(rec)
+        return self._replay0(rec)
 
     def enabled(self, u: Universe) -> list[tuple]:
         ops: list[tuple] = []
